@@ -469,6 +469,12 @@ func pathOf(v ssa.Value) (ssa.Value, string) {
 			path = "." + fr.Name + path
 			v = x.X
 			continue
+		case *ssa.FieldAddr:
+			// the address of a struct-typed field on the way to one of its members (&s.origin -> .file)
+			fr, _ := core.FieldOfAddr(x)
+			path = "." + fr.Name + path
+			v = x.X
+			continue
 		case *ssa.MakeInterface:
 			v = x.X
 			continue
